@@ -1307,10 +1307,13 @@ func genCase(rng *hx.Rng) []string {
 			j := rng.Intn(len(toRelease))
 			lines = append(lines, fmt.Sprintf("%d release %d", clock, toRelease[j]))
 			toRelease = append(toRelease[:j], toRelease[j+1:]...)
-		case x < 92 && !shut && !useArm && i > 2:
+		case x < 92 && !shut && (!useArm || armedOne) && i > 2:
 			fl := ""
 			for _, c := range "cipd" {
-				if rng.Chance(1, 3) {
+				// With CancelPendingElements the fate of an element that a poller parked in the hook holds past its due time
+				// is decided by Go's random select (context case: dropped, timer case: delivered) - both are allowed by the
+				// property, but the driver's fixed schedule can only follow one: no `c` in cases that use the hook.
+				if rng.Chance(1, 3) && !(useArm && c == 'c') {
 					fl += string(c)
 				}
 			}
